@@ -83,7 +83,9 @@ theorem k_readBits8 (fuel : Nat) (hf : 2 â‰¤ fuel) (bs : List Nat) (hb : âˆ€ b â
   have c8 : decide ((0 : Int) > 0) = false := by decide
   simp only [c8, Bool.false_eq_true, if_false, next_thenR]
 
+when_kernel Gzx.Gen.K02e.readBits in
 example : Gen.K02e.readBits 5 (bytesI [7, 200, 9]) 1 0 8 = .ok (200, false, 2, 0) := by decide
+when_kernel Gzx.Gen.K02e.readBits in
 example : Gen.K02e.readBits 5 (bytesI [7, 200, 9]) 3 0 8 = .ok (0, true, 3, 0) := by decide
 
 end Gzx.Obligations.K02e
